@@ -311,6 +311,8 @@ def py_site_kind(sym, sid):
             inside_fn = True
         p = sym.scopes[p]["parent"]
     if s["kind"] == "class":
+        if sym.scopes[s["parent"]]["kind"] == "class":
+            return "nested-class-body"
         return "local-class-body" if inside_fn else "class-body"
     if s.get("method"):
         return "method-body"
@@ -356,7 +358,8 @@ def py_coarse_site(sym, sid, name):
         if sym.scopes[p]["kind"] == "class":
             in_class = True
         p = sym.scopes[p]["parent"]
-    base = "class-body" if s["kind"] == "class" else ("function-body-inside-class" if in_class else "function-body")
+    base = ("nested-class-body" if in_class else "class-body") if s["kind"] == "class" else \
+        ("function-body-inside-class" if in_class else "function-body")
     flag = ""
     own = sym.sym(sid, name)
     if own is not None and own.is_nonlocal():
@@ -401,6 +404,21 @@ def left_in_block(view, decl_ids, owner_gir):
 
 
 CLASS_OPS = ("class_decl", "interface_decl", "record_decl", "enum_decl", "struct_decl")
+
+
+def reparented_classes(view):
+    """class_decl rows that lie inside the `nested` block of an outer class WITHOUT being a direct entry of that block (a class in a
+    method of a nested class, a nested class of a nested class): scope_hierarchy.correct_scopes searches the nested block
+    recursively and re-parents every class_decl it finds to the outer class (the winner depends on set iteration order)."""
+    out = set()
+    for sid, r in view.by_id.items():
+        if r.get("operation") != "class_decl":
+            continue
+        for i, (par, col) in enumerate(view.chain(sid)):
+            if i > 0 and col == "nested" and view.by_id.get(par, {}).get("operation") == "class_decl":
+                out.add(sid)
+                break
+    return out
 
 
 def describe_choice(view, use_sid, ids, block_scoped=False, all_views=None):
